@@ -563,6 +563,9 @@ fn c16_jobs(tier: Tier) -> Vec<HybJob> {
             }
         }
     }
+    // The same monitor over C17's histories: two keys with one 64-bit hash share their slots in the write-queue
+    // index and the disk index, where a record can end up owned (and dropped) by the index itself.
+    jobs.extend(crate::props_hyb2::c17_jobs(tier));
     jobs
 }
 
